@@ -52,7 +52,11 @@ def replay_arma2psd(chk, st, cplx):
     if len(st['B']):
         variants.append(('ma', None, B))
     m = max(len(st['A']), len(st['B']))
-    for nfft in sorted({m + 1, m + 2, 7, 8, 12}):
+    # every fifth state also at a long transform (past 2048, 4096 = the library's default, 8192, 16384; odd, even, power of two)
+    cnt = getattr(chk, '_c08_big', 0)
+    chk._c08_big = cnt + 1
+    big = {[2049, 4097, 8192, 8193, 16385, 4098][(cnt // 5) % 6]} if cnt % 5 == 0 else set()
+    for nfft in sorted({m + 1, m + 2, 7, 8, 12} | big):
         if nfft <= m:
             continue
         dv = eval_lags(den, nfft).real
@@ -78,6 +82,13 @@ def replay_arma2psd(chk, st, cplx):
                 chk.violation('C08:arma2psd:%s:%s:raises' % (vname, mode), 'arma2psd raises %r' % (res,), case)
                 continue
             bad = cmp_vec(res, exp, tol=1e-8, name='psd')
+            if bad and nfft in big and np.shape(res) == exp.shape and np.all(np.isfinite(res)):
+                # a long grid comes close to the poles: |A|^2 is computed with a rounding error of a few thousand eps times
+                # (sum|a_k|)^2, which the division amplifies bin by bin
+                S2 = float(np.sum(np.abs(np.concatenate(([1.0], np.asarray(a, dtype=complex))))) ** 2) if a is not None else 1.0
+                allowed = np.abs(exp) * (1e-8 + 1e-12 * S2 / np.abs(d))
+                if np.all(np.abs(np.asarray(res) - exp) <= allowed):
+                    bad = None
             if bad:
                 chk.violation('C08:arma2psd:%s:%s:values' % (vname, mode),
                               'arma2psd(A=%s, B=%s, rho=%s, T=%s, NFFT=%d) differs from (rho/T)|B|^2/|A|^2: %s'
@@ -193,6 +204,15 @@ def obs_events(chk):
                     ev['axis_dev'] = obs.q(rel_dev(f2 * (s1 / s2), f1)) if len(f1) > 1 else 0
                     ev['df_dev'] = obs.q(max(abs(pF.df - s1 / nfft) / (s1 / nfft), abs(pT.df - s1 / nfft) / (s1 / nfft), 0.0 if (pF.NFFT == nfft and pT.NFFT == nfft) else 1.0))
                     ev['len_ok'] = bool(len(f1) == len(vF) == len(f2) == len(v2) == len(vT))
+                    live = 0.0
+                    for s3 in (s2, s1 * (1 + 3e-6)):
+                        pl = build(name, x, nfft, s1, True)
+                        pl.psd
+                        pl.sampling = s3
+                        fr = build(name, x, nfft, s3, True)
+                        live = max(live, rel_dev(np.array(pl.psd), np.array(fr.psd)), rel_dev(np.array(pl.frequencies()), np.array(fr.frequencies())) if len(f1) > 1 else 0.0,
+                                   abs(pl.df - fr.df) / fr.df, abs(pl.sampling - s3) / s3)
+                    ev['live_dev'] = obs.q(live)
                 except Exception as e:  # noqa
                     ev['raised'] = True
                     for k in ('scale_dev', 'scale_twice_dev', 'scale_none_dev', 'samp_unchanged_dev',
